@@ -85,7 +85,7 @@ func init() {
 		r.Rule = "SEQ: every interleaving of write operations with token-carrying readers (two cursors, every limit, latest-only or not) up to the stated depth; after every history the full feed, every paged read (limits 0..3, latest-only or not), end-of-feed and beyond-the-end tokens are compared with the reference feed (one entry per non-identical write); reader cursors are part of the state"
 		r.Assumptions = []string{"badger transactions are linearizable", "change positions need not be contiguous; tokens are compared by the feed index they denote"}
 		ids2 := []string{"e1", "e2"}
-		writes := vWriteAlphabet([]string{"A"}, ids2, poolIdx("v1", "v2", "dv1", "r2", "dv2"), poolIdx("v1", "v2", "dv1", "dv2"), nil)
+		writes := vWriteAlphabet([]string{"A"}, ids2, poolIdx("v1", "v2", "dv1", "r2", "dv2", "arrarr"), poolIdx("v1", "v2", "dv1", "dv2"), nil)
 		writes = append(writes, VOp{K: "batch", DS: "A", Ents: []VEnt{{"e1", 0}, {"e2", 0}, {"e1", 1}}})
 		writes = append(writes, VOp{K: "batch", DS: "B", Ents: []VEnt{{"e1", 0}}})
 		// transactions (the other write path) and writes the store refuses as a whole
